@@ -81,6 +81,7 @@ def run_one(ch, cfg):
     nimg = 1 + ch.draw(4, "images")
     viol = []
     areas_list, paths, writings = [], [], []
+    same_name = ch.draw(3, "same-file-name") == 1
     shape = []
     for i in range(nimg):
         areas = hexfile.gen_areas(ch)
@@ -88,7 +89,8 @@ def run_one(ch, cfg):
         a = hexfile.write(ch, areas, eol=eol, with_start_record=ch.draw(2, "start-rec") == 1)
         b = hexfile.write(ch, areas, eol=ch.pick(["\n", "\r\n"], "eol2"))
         areas_list.append(areas)
-        paths.append("/simfs/app%d.hex" % i)
+        # images of one signing run may share their file name (builds/v1/app.hex, builds/v2/app.hex)
+        paths.append(("/simfs/build%d/app.hex" if same_name else "/simfs/app%d.hex") % i)
         writings.append((a, b))
         zones = set((s >> 16) for s, d in areas) | set(((s + len(d) - 1) >> 16) for s, d in areas)
         shape.append((len(areas), len(zones) > 1))
